@@ -22,6 +22,8 @@ The tie of both paths to these models/specifications is the three-way correspond
 -/
 import TetlProofs.C13.Lemmas
 import TetlProofs.C13.LemmasSafe
+import TetlProofs.C13.GcemValue
+import TetlProofs.C13.GcemRound
 import TetlProofs.C14.Props
 import TetlProofs.C18.Props
 namespace Tetl.C13.Props
@@ -201,6 +203,30 @@ theorem signbit_neg (f : Fmt) (b : Nat) (hb : b < 2 ^ f.width) :
   rcases hs with h | h <;> simp [h]
 example : FSpec.signbit f64 (f64.neg 0) = !FSpec.signbit f64 0 := signbit_neg f64 0 (by decide)
 
+/-! ## 2a. the constant-evaluated rounding functions: gcem's code computes the specification of the builtin
+
+`Model.gcemFloor` … model gcem's `floor_check` … operation by operation (every comparison, the conversion to
+`long long`, every floating-point subtraction / addition with its IEEE rounding).  For every pattern of a standard
+format they return — without reaching an out-of-range conversion — the bit-level specification `FSpec.roundTo`, which
+is what `__builtin_floor{f,}` … on the run-time path are bound to.  (`FSpec.roundTo` is proved equal to property
+C16's specification in TetlProofs/C16/Bridge.lean, and that one is proved to be ⌊x⌋, ⌈x⌉, … in TetlProofs/C16.) -/
+theorem floor_paths (f : Fmt) (h : Std f) (b : Nat) (hb : b < 2 ^ f.width) :
+    Model.gcemFloor f b = .ok (FSpec.roundTo f .floor b) := gcemFloor_value f h b hb
+example : Model.gcemFloor f32 0xaedbe6ff = .ok (FSpec.roundTo f32 .floor 0xaedbe6ff) := floor_paths f32 std_f32 _ (by decide)
+theorem ceil_paths (f : Fmt) (h : Std f) (b : Nat) (hb : b < 2 ^ f.width) :
+    Model.gcemCeil f b = .ok (FSpec.roundTo f .ceil b) := gcemCeil_value f h b hb
+example : Model.gcemCeil f32 0xbf000000 = .ok (FSpec.roundTo f32 .ceil 0xbf000000) := ceil_paths f32 std_f32 _ (by decide)
+theorem trunc_paths (f : Fmt) (h : Std f) (b : Nat) (hb : b < 2 ^ f.width) :
+    Model.gcemTrunc f b = .ok (FSpec.roundTo f .trunc b) := gcemTrunc_value f h b hb
+example : Model.gcemTrunc f64 0xC3E0000000000001 = .ok (FSpec.roundTo f64 .trunc 0xC3E0000000000001) :=
+  trunc_paths f64 std_f64 _ (by decide)
+/-- gcem::round (`sgn(x) * T(find_whole(abs(x)))`, `find_whole` through `floor_check`, a float subtraction, the
+    comparison with 0.5 and two conversions to `long long`).  `2 ≤ bias`: 0.5 is a normal number (binary32, binary64;
+    false for the toy format (2,1), see the `decide` example in TetlProofs/C13/GcemRound.lean). -/
+theorem round_paths (f : Fmt) (h : Std f) (h2 : 2 ≤ f.bias) (b : Nat) (hb : b < 2 ^ f.width) :
+    Model.gcemRound f b = .ok (FSpec.roundTo f .round b) := gcemRound_value f h h2 b hb
+example : Model.gcemRound f32 0x3effffff = .ok (FSpec.roundTo f32 .round 0x3effffff) :=
+  round_paths f32 std_f32 bias2_f32 _ (by decide)
 /-! ## 2b. constant evaluation succeeds on the whole domain (model level): no conversion to `long long` out of range
 
 `Std f` holds for binary32 and binary64 (`std_f32`, `std_f64`).  Before the fixes of fix-c13 these statements were
